@@ -77,8 +77,8 @@ def gen_cases(tier, seed):
         k = cand[int(rng.integers(len(cand)))]
         ops.insert(k + 1, dict(ops[k]))  # adjacent repeat: same pool state, same key
         fp = ["default", "raise", "ignore", "call", "default"][i % 5]
-        cases.append({"kind": "history", "shells": shells, "ops": ops[:34], "fp": fp, "pool_seed": [seed, i],
-                      "classes": classes + ["fp:" + fp, "nops:%d" % len(ops[:34])], "cost": len(ops) * (1 + sum(ls)) ** 2})
+        cases.append({"kind": "history", "shells": shells, "ops": ops[:34], "fp": fp, "pool_seed": [seed, i], "pool_rep": bool(i % 3 == 1),
+                      "classes": classes + ["fp:" + fp, "nops:%d" % len(ops[:34])] + (["pool:array-representations"] if i % 3 == 1 else []), "cost": len(ops) * (1 + sum(ls)) ** 2})
     if tier == "thorough":
         # the repository's own, unedited test-suite as a workload with the sentinels on (pytest plugin vmon.pytest_plugin)
         cases.append({"kind": "testsuite", "classes": ["repo-testsuite-under-monitors"], "cost": 1e9})
@@ -159,6 +159,11 @@ def make_pool(case, files):
     b = rng.normal(size=(n - 1 if n > 1 else 1,) * 2)
     P["dmT"] = b @ b.T
     P["ct"] = P["ct"][:5]  # 3 atoms: H(2) + He(1) + H(2) = 5 shells
+    if case.get("pool_rep"):
+        # the shared arrays in other legitimate in-memory representations (Fortran order, strided view, negative strides):
+        # a routine that works in place on "its own copy" (asarray / overwrite_a / out=) only owns a copy for some of them
+        for name in ("pts", "chg", "nuc", "Z", "dm", "dm_indef", "dmT", "T", "coords", "origin"):
+            P[name] = cm.rep(P[name], str(rng.choice(["f", "strided", "neg", "f"] if P[name].ndim == 2 else ["strided", "neg", "c"])))
     return P
 
 
